@@ -304,6 +304,8 @@ func (c *irCtx) expr(e ast.Expr, want string) string {
 	case *ast.IndexExpr:
 		if t := c.typeOf(x.X); t == "[]byte" || t == "string" {
 			return "(.index " + c.expr(x.X, "") + " " + c.expr(x.Index, "int") + ")"
+		} else if strings.HasPrefix(t, "[]") && (t == "[]string" || isIntType(c, t[2:]) || c.fn.tpKind[t[2:]] == "obj") {
+			return "(.elem " + c.expr(x.X, "") + " " + c.expr(x.Index, "int") + ")"
 		}
 	case *ast.SliceExpr:
 		if t := c.typeOf(x.X); (t == "[]byte" || t == "string") && !x.Slice3 {
@@ -349,6 +351,16 @@ func (c *irCtx) expr(e ast.Expr, want string) string {
 					return ".bufBytes"
 				case id.Name == "bytes" && sel.Sel.Name == "Repeat" && len(x.Args) == 2:
 					return "(.repeat " + c.expr(x.Args[0], "") + " " + c.expr(x.Args[1], "int") + ")"
+				case id.Name == "binary" && sel.Sel.Name == "Size" && len(x.Args) == 1:
+					// binary.Size(T(0)) with T one of the fixed-width integer types: a constant; for a type parameter it is not
+					// expressible (the language has no sizeof)
+					if call, ok := x.Args[0].(*ast.CallExpr); ok {
+						if tid, ok := call.Fun.(*ast.Ident); ok {
+							if w := scalarWidth(tid.Name); w > 0 {
+								return leanInt(int64(w))
+							}
+						}
+					}
 				case id.Name == "crc32" && sel.Sel.Name == "ChecksumIEEE" && len(x.Args) == 1:
 					return "(.crc32 " + c.expr(x.Args[0], "") + ")"
 				case (id.Name == "errors" && sel.Sel.Name == "New") || (id.Name == "fmt" && sel.Sel.Name == "Errorf"):
@@ -853,6 +865,63 @@ func (c *irCtx) stmt1(s ast.Stmt) string {
 		}
 		body := c.stmt(x.Body)
 		parts = append(parts, "(.while "+cond+" "+post+"\n "+body+")")
+		return seqOf(parts)
+	case *ast.SwitchStmt:
+		// switch [init;] [tag] { case a, b: … default: … }  =  the tag evaluated once, then a chain of if / else if
+		c.push()
+		defer c.pop()
+		var parts []string
+		if x.Init != nil {
+			parts = append(parts, c.stmt(x.Init))
+		}
+		tagSlot, tagTy := -1, ""
+		if x.Tag != nil {
+			tagTy = c.typeOf(x.Tag)
+			if !isIntType(c, tagTy) && tagTy != "const" {
+				break
+			}
+			v := c.expr(x.Tag, tagTy)
+			tagSlot = c.tmp(tagTy)
+			parts = append(parts, fmt.Sprintf("(.set %d %s)", tagSlot, v))
+		}
+		chain := ".skip"
+		var clauses []*ast.CaseClause
+		for _, cl := range x.Body.List {
+			cc, ok := cl.(*ast.CaseClause)
+			if !ok {
+				c.fail(cl, "switch clause")
+				return ".opaque"
+			}
+			if cc.List == nil {
+				c.push()
+				chain = c.stmts(cc.Body)
+				c.pop()
+			} else {
+				clauses = append(clauses, cc)
+			}
+		}
+		for i := len(clauses) - 1; i >= 0; i-- {
+			cc := clauses[i]
+			cond := ""
+			for _, e := range cc.List {
+				one := ""
+				if tagSlot >= 0 {
+					one = fmt.Sprintf("(.cmp .eq (.var %d) %s)", tagSlot, c.expr(e, tagTy))
+				} else {
+					one = c.expr(e, "bool")
+				}
+				if cond == "" {
+					cond = one
+				} else {
+					cond = "(.or " + cond + " " + one + ")"
+				}
+			}
+			c.push()
+			body := c.stmts(cc.Body)
+			c.pop()
+			chain = "(.ite " + cond + "\n " + body + "\n " + chain + ")"
+		}
+		parts = append(parts, chain)
 		return seqOf(parts)
 	case *ast.RangeStmt:
 		if x.Tok != token.DEFINE || x.Value == nil || (x.Key != nil && !isIdent(x.Key, "_")) {
